@@ -1371,6 +1371,7 @@ fn rec_case(ctx: &mut Ctx, sub: u64, long: bool, emit_corr: bool) {
 
 pub fn run(ctx: &mut Ctx) {
     if let Some(case) = ctx.replay_only.clone() {
+        if super::c05_reenc::replay(ctx, &case) { return; }
         let sub: u64 = case.get(1).and_then(|s| s.parse().ok()).unwrap_or(0);
         match case.first().map(|s| s.as_str()) {
             Some("rec") => rec_case(ctx, sub, false, true),
@@ -1411,4 +1412,5 @@ pub fn run(ctx: &mut Ctx) {
         let sub = ctx.seed.wrapping_mul(3_000_017).wrapping_add(it);
         writer_sequence(ctx, sub, !ctx.tier_thorough || it % 40 == 0);
     }
+    super::c05_reenc::run(ctx);
 }
